@@ -152,8 +152,11 @@ def h_truncate(V, N, to, normalize, binding):
     V.check('reported-error-between-0-and-1', And(res >= 0, res <= 1))
 
 
-def h_diagonalize(V, N, bond, normalize, binding):
-    """ the real diagonalize_central_ against the contract used above, and its state bookkeeping """
+def h_diagonalize(V, N, bond, normalize, binding, policy=None):
+    """
+    the real diagonalize_central_ against the contract used above, and its state bookkeeping.  policy='lowrank': opts_svd also
+    carries options that only svd_with_truncation understands; the cut must still be computed from the FULL spectrum
+    """
     if not V.symbolic:
         return
     w, psi = setup(V, N, 1, binding=binding)
@@ -167,7 +170,8 @@ def h_diagonalize(V, N, bond, normalize, binding):
     psi.A[bond] = GT(w, c_scale, ('C',), 'block')
     before = state_of(psi)
     f0 = psi.factor
-    d = V.call(psi.diagonalize_central_, opts_svd={'D_total': 4}, normalize=normalize)
+    opts = {'D_total': 4} if policy is None else {'D_total': 4, 'D_block': 2, 'policy': policy}
+    d = V.call(psi.diagonalize_central_, opts_svd=opts, normalize=normalize)
     V.check('returned-weight-is-a-fraction', And(d >= 0, d <= 1))
     V.check('central-block-kept-on-the-same-bond', psi.pC == bond and bond in psi.A)
     if not binding:
@@ -228,5 +232,8 @@ def units(tier):
             for normalize in (True, False):
                 for binding in (False, True):
                     U.append(('h_diagonalize', f"N={N},bond={bond},normalize={normalize},binding={binding}", dict(N=N, bond=bond, normalize=normalize, binding=binding)))
+                    if N == 2:
+                        U.append(('h_diagonalize', f"N={N},bond={bond},normalize={normalize},binding={binding},policy=lowrank",
+                                  dict(N=N, bond=bond, normalize=normalize, binding=binding, policy='lowrank')))
     U.append(('h_truncate_requires_opts', 'x', {}))
     return U
